@@ -3,7 +3,9 @@ From Model Require Import Bytes Tables.
 From Spec Require Import SpecTables.
 From Model Require Import Cert KAC.
 From Spec Require Import Wire.
-From Proofs Require Import TableProofs KacProofs KacRT.
+From Proofs Require Import TableProofs KacProofs KacRT ValidatorTie.
+From Model Require Import Sig LS Validate.
+From Gen Require Import Tables Validators.
 Open Scope Z_scope.
 
 (* for every one of the 65,536 codes, every lookup the library offers agrees with the
@@ -64,3 +66,19 @@ Print Assumptions C10_key_block_serialised.
 Example C10_nonvacuous : sig_length 7 = Some 64 /\ kc_spk_size 11 = Some 32 /\ kc_crypto_size 4 = Some 32
   /\ sig_length 9 = None /\ off_sig_size 9 = 0.
 Proof. vm_compute. auto. Qed.
+
+(* ---- the lookups as regenerated FUNCTIONS (Gen/Validators.v, translated from the Go function
+   bodies, not only their switch tables) agree with the model's, for every integer ---- *)
+Theorem C10_source_signature_length : forall t, g_signature_getSignatureLength t = sig_length t.
+Proof. exact tie_signature_length. Qed.
+Theorem C10_source_offline_key_size : forall t, g_offline_signature_SigningPublicKeySize t = off_spk_size t.
+Proof. exact tie_off_spk_size. Qed.
+Theorem C10_source_offline_sig_size : forall t, g_offline_signature_SignatureSize t = off_sig_size t.
+Proof. exact tie_off_sig_size. Qed.
+(* LeaseSet2's key validation (constructor and Validate share it) agrees with the table on
+   public-key length: a key of a known type is accepted exactly when its declared length is the
+   actual length and the table's *)
+Theorem C10_source_leaseset_key_validation : forall k, (ek_type k < 65536)%N ->
+  g_lease_set2_validateEncryptionKeyConsistency 0 (view_ek k) = enckey_valid k.
+Proof. exact tie_enckey_valid. Qed.
+Print Assumptions C10_source_leaseset_key_validation.
